@@ -247,8 +247,9 @@ def stepM (cfg : Cfg) : ROp → M ROut
       call cfg (.unlink [pat]) >>=ₘ fun _ =>
       M.pure .none_
   | .setLock k tok ms =>
-    -- `bool(await self._client.set(key, value, px=int(expire * 1000), nx=True))`
-    call cfg (.set k tok (some ms) .nx) >>=ₘ fun r =>
+    -- `pexpire = int(expire * 1000) if expire else None; bool(await self._client.set(key, value, px=pexpire, nx=True))`
+    -- (finding D67, repaired: `ms = 0` stands for "no ttl" - `locked(ttl=None)` - a lock without a lease, as in memory)
+    call cfg (.set k tok (pxOf (some ms)) .nx) >>=ₘ fun r =>
     M.pure (.bool (truthy r))
   | .unlock k tok =>
     ensureScript cfg .unlock >>=ₘ fun sha =>
